@@ -796,6 +796,12 @@ func (e *specEnv) evalCall(n *ast.CallExpr) (sval, error) {
 		sub.old = true
 		sub.oldHeap = snap
 		sub.strictOld = true
+		if hn, ok := e.frame.loopHeadNames[ord]; ok {
+			// local variables, too, as they were at the head of that round
+			fc := *e.frame
+			fc.names = hn
+			sub.frame = &fc
+		}
 		return sub.eval(n.Args[1])
 	case "implies":
 		a, err := arg(0)
@@ -1251,6 +1257,8 @@ func (e *specEnv) evalCall(n *ast.CallExpr) (sval, error) {
 				if c, ok := in.(*ssa.Call); ok {
 					if sc := c.Call.StaticCallee(); sc != nil && (sc.Name() == id.Name || x.p.Names[sc] == id.Name) {
 						calls = append(calls, c)
+					} else if c.Call.IsInvoke() && c.Call.Method.Name() == id.Name {
+						calls = append(calls, c) // interface method call, by method name
 					}
 				}
 			}
@@ -1294,6 +1302,17 @@ func (e *specEnv) evalCall(n *ast.CallExpr) (sval, error) {
 			}
 		}
 		return sval{}, fmt.Errorf("rangeidx(%d): loop %d is not a range over a string", ord, ord)
+	case "isSpace": // isSpace(r): unicode.IsSpace(r), the function the library model uses
+		v, err := arg(0)
+		if err != nil {
+			return sval{}, err
+		}
+		c := v.v.T
+		if v.lit != nil {
+			c = e.coerceInt(v)
+		}
+		x.declFun(e.s, "unicode.IsSpace_", "("+string(c.Sort)+") Bool")
+		return sval{v: scalar(mk(SBool, "unicode.IsSpace_", c)), typ: boolT}, nil
 	case "chr": // chr(c): string(rune(c)) for a byte or rune c
 		v, err := arg(0)
 		if err != nil {
